@@ -26,6 +26,34 @@ int main(int argc, char **argv) {
     static unsigned char msg[1 << 16]; unsigned char key[64], d1[64], d2[64];
     int is256 = !strcmp(alg, "sha256"), is512 = !strcmp(alg, "sha512"), keyed = !strcmp(alg, "blake2bk");
     size_t B = is256 ? 64 : 128;
+    if (argc > 5 && !strcmp(argv[5], "big")) {
+        /* one long stream: <nh> MiB in 1 MiB updates plus odd-sized head and tail, crossing 2^32 bits; counters after every update */
+        static unsigned char chunk[1 << 20]; size_t total = 0; vrng_bytes(&rng, chunk, sizeof chunk);
+        crypto_hash_sha256_state s256, o256; crypto_hash_sha512_state s512, o512;
+        crypto_generichash_state *gs = (crypto_generichash_state *) sodium_malloc(crypto_generichash_statebytes()), *go = (crypto_generichash_state *) sodium_malloc(crypto_generichash_statebytes());
+        if (is256) { crypto_hash_sha256_init(&s256); crypto_hash_sha256_init(&o256); } else if (is512) { crypto_hash_sha512_init(&s512); crypto_hash_sha512_init(&o512); } else { crypto_generichash_init(gs, NULL, 0, 64); crypto_generichash_init(go, NULL, 0, 64); }
+        v_emit("{\"e\":\"init\",\"alg\":\"%s\",\"key\":0,\"buflen\":0,\"ctr\":0}", alg);
+        /* reference: ONE update call over a contiguous copy is not possible for 512 MiB on every machine; the reference stream uses a
+         * different chunking (7 MiB + 13 bytes pieces) and, at the end, the one-shot API on a heap copy when it can be allocated */
+        unsigned char *all = (unsigned char *) malloc(((size_t) nh << 20) + 200); size_t cap = all ? ((size_t) nh << 20) + 200 : 0;
+        for (int u = 0; u <= nh + 1; u++) {
+            size_t n = u == 0 ? 77 : u == nh + 1 ? 5 : sizeof chunk; chunk[u % sizeof chunk] ^= (unsigned char) u;
+            unsigned long long ctr, buflen;
+            if (is256) { crypto_hash_sha256_update(&s256, chunk, n); ctr = s256.count >> 3; buflen = ctr & 63; }
+            else if (is512) { crypto_hash_sha512_update(&s512, chunk, n); ctr = s512.count[1] >> 3; buflen = ctr & 127; }
+            else { crypto_generichash_update(gs, chunk, n); uint64_t a, b; memcpy(&a, (unsigned char *) gs + 64, 8); memcpy(&b, (unsigned char *) gs + 352, 8); ctr = a; buflen = b; }
+            if (all && total + n <= cap) memcpy(all + total, chunk, n);
+            total += n;
+            v_emit("{\"e\":\"upd\",\"n\":%zu,\"buflen\":%llu,\"ctr\":%llu}", n, buflen, ctr);
+        }
+        int ret, same = 1;
+        if (is256) { ret = crypto_hash_sha256_final(&s256, d1); if (all) { crypto_hash_sha256(d2, all, total); same = !memcmp(d1, d2, 32); } }
+        else if (is512) { ret = crypto_hash_sha512_final(&s512, d1); if (all) { crypto_hash_sha512(d2, all, total); same = !memcmp(d1, d2, 64); } }
+        else { ret = crypto_generichash_final(gs, d1, 64); if (all) { crypto_generichash(d2, 64, all, total, NULL, 0); same = !memcmp(d1, d2, 64); } }
+        v_emit("{\"e\":\"final\",\"ret\":%d,\"same\":%s,\"total\":%zu,\"reference\":%s}", ret, same ? "true" : "false", total, all ? "true" : "false");
+        free(all); sodium_free(gs); sodium_free(go); (void) o256; (void) o512;
+        v_close(); return 0;
+    }
     for (int h = 0; h < nh; h++) {
         size_t total = 0; int nupd = 1 + (int) vrng_below(&rng, 9);
         vrng_bytes(&rng, key, 64);
